@@ -718,14 +718,17 @@ func specSetAFCByte(old Packet, value byte, j int) byte {
 //@   props C02
 //@   paths
 //@   cases p[5] bits 0x1f
+//@   cases p[3] bits 0x30
 //@   requires p != nil && specWF(p) && verifSeparate(p, data)
 //@   ensures old(specAFC(p)) == 2 ==> n == 0 && err == gots.ErrNoPayload && specBytesSame(p, old(*p), 0, 188)
 //@   ensures old(specAFC(p)) != 2 ==> err == nil && n == afMin(len(data), old(specCapacity(p)))
 //@   ensures old(specAFC(p)) != 2 ==> specHdrLen(p) == 188-n && specAFC(p)%2 == 1
 //@   ensures old(specAFC(p)) != 2 ==> forall j in 0..188 :: j >= 188-n ==> p[j] == data[j-(188-n)]
 //@   ensures old(specAFC(p)) != 2 ==> specBytesSame(p, old(*p), 0, 3) && p[3]&0xcf == old(p[3])&0xcf
+//@   ensures old(specAFC(p)) == 3 && old(p[4]) != 0 ==> afContentEnd((*AdaptationField)(p)) == old(specHeaderContentEnd(p))
 //@   ensures old(specAFC(p)) == 3 && old(p[4]) != 0 ==> specBytesSame(p, old(*p), 5, old(specHeaderContentEnd(p)))
-//@   ensures old(specAFC(p)) == 3 && old(p[4]) != 0 ==> specBytesFF(p, old(specHeaderContentEnd(p)), 188-n) && specWF(p)
+//@   ensures old(specAFC(p)) == 3 && old(p[4]) != 0 ==> specBytesFF(p, old(specHeaderContentEnd(p)), 188-n)
+//@   ensures old(specAFC(p)) == 3 && old(p[4]) != 0 ==> specWF(p)
 //@   ensures old(specAFC(p)) == 1 ==> (n == 184 || (n == 183 && p[4] == 0) || (p[5] == 0 && specBytesFF(p, 6, 188-n))) && specWF(p)
 //@   ensures old(specAFC(p)) == 3 && old(p[4]) == 0 && len(data) >= 183 ==> p[4] == 0 && specWF(p)
 //@   ensures old(specAFC(p)) == 3 && old(p[4]) == 0 && len(data) < 183 ==> p[5] == 0 && specBytesFF(p, 6, 188-n) && specWF(p)
